@@ -307,3 +307,129 @@ def rule_codedep(ctx) -> RuleResult:
                                    f"({'uses only ' + ', '.join(sorted({norm(x)[:20] for x in ast.walk(e) if isinstance(x, ast.Attribute) and isinstance(x.value, ast.Name) and x.value.id in label_vars})) if not direct else 'callee does not factorize'}): "
                                    "such a grouper can never code an element as -1, so elements with a missing / unrequested / out-of-bin label in it are kept")
     return res
+
+
+# ---------------------------------------------------------------------------------------------
+# R-CODELABELS (C07, C02, C12): lazily computed codes refer to the label set that is returned with them.
+# _factorize_multiple returns (codes, labels, shape).  With lazy labels every *block* is factorized on its own, so the codes are comparable
+# across blocks only if every block is factorized against one fixed label list -- and they mean what the caller thinks only if that list is
+# the one returned.  The `expected_groups=` handed to the per-block factorizer must therefore iterate over the same sequence that is
+# returned as the labels (not over the caller's expected_groups, which is None for a grouper whose labels were discovered eagerly).
+def rule_codelabels(ctx) -> RuleResult:
+    res = RuleResult("R-CODELABELS", "lazy per-block codes are factorized against the label list that is returned with them", min_instances=1)
+    f = ctx.prog.func("core._factorize_multiple")
+    rets = [r for r in walk_own(f.node) if isinstance(r, ast.Return) and isinstance(r.value, ast.Tuple) and len(r.value.elts) == 3]
+    if not rets:
+        raise AnalysisError("_factorize_multiple: 'return (codes,), labels, shape' not found (anchor)")
+    labels_e = rets[0].value.elts[1]
+    if not isinstance(labels_e, ast.Name):
+        raise AnalysisError("_factorize_multiple: the returned labels are not a local name (anchor)")
+    L = labels_e.id
+    n = 0
+    for comp in [x for x in walk_own(f.node) if isinstance(x, (ast.ListComp, ast.GeneratorExp))]:
+        calls = [c for c in ast.walk(comp.elt) if isinstance(c, ast.Call) and kwarg(c, "expected_groups") is not None
+                 and any(isinstance(a, ast.Name) and a.id == "_lazy_factorize_wrapper" for a in c.args[:1])]
+        for c in calls:
+            n += 1
+            eg = kwarg(c, "expected_groups")
+            eg_names = names_in(eg)
+            # which iterables feed those names?
+            sources = set()
+            for g in comp.generators:
+                tnames = [x.id for x in ast.walk(g.target) if isinstance(x, ast.Name)]
+                if isinstance(g.iter, ast.Call) and norm(g.iter.func) == "zip" and isinstance(g.target, ast.Tuple) and len(g.target.elts) == len(g.iter.args):
+                    for t, it in zip(g.target.elts, g.iter.args):
+                        if names_in(t) & eg_names:
+                            sources |= names_in(it)
+                elif set(tnames) & eg_names:
+                    sources |= names_in(g.iter)
+            ok = L in sources
+            res.inst(f"_factorize_multiple: per-block factorizer gets expected_groups={norm(eg)} drawn from {sorted(sources)}; returned labels: {L}: {ok}", "lazy-codes")
+            if not ok:
+                res.report("core._factorize_multiple|codes-vs-returned-labels", f.where(c), f.qualname,
+                           f"each block is factorized with expected_groups={norm(eg)} taken from {sorted(sources) or '?'}, but the labels returned with the codes are "
+                           f"'{L}': for a grouper whose labels were discovered eagerly (expected_groups None) every block numbers its own labels from 0, "
+                           "so codes of different blocks denote different labels (mixed numpy / dask groupers give silently wrong groups)")
+    if n == 0:
+        raise AnalysisError("_factorize_multiple: no per-block call of _lazy_factorize_wrapper with expected_groups= (anchor)")
+    return res
+
+
+# ---------------------------------------------------------------------------------------------
+# R-UNPERMUTE (C18, C01): what was ordered with a permutation is restored with its inverse.
+# P = argsort(x); inputs are gathered with P (x[P]) to be processed in sorted order.  Handing results back in the caller's order needs the
+# inverse: a scatter (out[P] = r) or a gather with argsort(P).  Gathering the result with P again applies the permutation twice, which is
+# right only when P is an involution (ascending, descending, a swap) -- exactly the orders a test suite tends to use.
+def rule_unpermute(ctx) -> RuleResult:
+    res = RuleResult("R-UNPERMUTE", "a result is never put back in order by gathering with the permutation that ordered its input", min_instances=2)
+    n_perm = 0
+    for q, f in sorted(ctx.prog.funcs.items()):
+        if isinstance(f.node, ast.Lambda) or f.is_overload:
+            continue
+        perms = {}
+        for a in walk_own(f.node):
+            if isinstance(a, ast.Assign) and len(a.targets) == 1 and isinstance(a.targets[0], ast.Name) and isinstance(a.value, ast.Call):
+                fn = norm(a.value.func)
+                if fn in ("np.argsort", "numpy.argsort") or (isinstance(a.value.func, ast.Attribute) and a.value.func.attr == "argsort"):
+                    perms[a.targets[0].id] = a
+        if not perms:
+            continue
+        params = set(f.params)
+        # names derived from inputs: params, kwargs[...] reads, and locals assigned from them by plain conversion
+        returned = set()
+        for r in walk_own(f.node):
+            if isinstance(r, ast.Return) and r.value is not None:
+                returned |= {x.id for x in ast.walk(r.value) if isinstance(x, ast.Name)}
+        for P, adef in perms.items():
+            n_perm += 1
+            sorted_src = names_in(adef.value) - {"np"}
+            gathers_in, gathers_out, inverse = [], [], []
+            for n in walk_own(f.node):
+                # inverse constructions
+                if isinstance(n, ast.Call) and (norm(n.func) in ("np.argsort", "numpy.argsort") or (isinstance(n.func, ast.Attribute) and n.func.attr == "argsort")) \
+                        and P in names_in(n) and n is not adef.value:
+                    inverse.append(norm(n)[:40])
+                if isinstance(n, ast.Assign) and any(isinstance(t, ast.Subscript) and P in names_in(t.slice) for t in n.targets):
+                    inverse.append(norm(n)[:40])            # scatter
+                if isinstance(n, ast.Subscript) and isinstance(n.ctx, ast.Load) and P in names_in(n.slice) and P not in names_in(n.value):
+                    base = names_in(n.value)
+                    if base & (params | sorted_src) or any(isinstance(x, ast.Call) and names_in(x) & (params | sorted_src) for x in ast.walk(n.value)):
+                        gathers_in.append(n)
+                    # is this gather (re)bound to a returned name whose previous value came out of the processing?
+            for a in walk_own(f.node):
+                if isinstance(a, ast.Assign) and len(a.targets) == 1 and isinstance(a.targets[0], ast.Name) and a.targets[0].id in returned \
+                        and isinstance(a.value, ast.Subscript) and P in names_in(a.value.slice) and isinstance(a.value.value, ast.Name) \
+                        and a.value.value.id == a.targets[0].id:
+                    gathers_out.append(a)
+            res.inst(f"{q}: permutation {P} = {norm(adef.value)[:40]}: input gathers {len(gathers_in)}, result re-gathers {len(gathers_out)}, inverse constructions {len(inverse)}",
+                     f"{q}|{P}")
+            # the re-gathered result must have been *computed from* the gathered input in between (co-sorting two arrays with one permutation
+            # -- keys and values, labels and results -- is the legitimate use of two gathers)
+            def _processed_between(a_out) -> bool:
+                first_in = min(g.lineno for g in gathers_in)
+                tainted = set()
+                for st in walk_own(f.node):
+                    if isinstance(st, ast.Assign) and any(g in list(ast.walk(st.value)) for g in gathers_in):
+                        for t in st.targets:
+                            tainted |= {x.id for x in ast.walk(t) if isinstance(x, ast.Name)}
+                changed = True
+                while changed:
+                    changed = False
+                    for st in walk_own(f.node):
+                        if isinstance(st, ast.Assign) and first_in <= st.lineno < a_out.lineno and names_in(st.value) & tainted:
+                            for t in st.targets:
+                                for x in ast.walk(t):
+                                    if isinstance(x, ast.Name) and x.id not in tainted:
+                                        tainted.add(x.id)
+                                        changed = True
+                return a_out.targets[0].id in tainted and first_in < a_out.lineno
+
+            gathers_out = [a for a in gathers_out if _processed_between(a)]
+            if gathers_in and gathers_out and not inverse:
+                a = gathers_out[0]
+                res.report(f"{q}|double-permutation|{P}", f.where(a), q,
+                           f"'{norm(a)[:60]}' gathers the result with {P}, the permutation that already ordered the input ('{norm(gathers_in[0])[:40]}'): that applies the "
+                           f"permutation twice instead of undoing it (correct only for involutions: ascending, descending, swaps). Restore with a scatter "
+                           f"(out[{P}] = ...) or np.argsort({P})")
+    res.inst(f"{n_perm} argsort permutations examined", "count")
+    return res
